@@ -126,11 +126,11 @@ class Session:
         jobs, texts = [], {}
         for ob in rest:
             try:
-                text = smt.to_smt2(ob.hyps, ob.goal, self.extra_axioms)
+                solver = smt.build_solver(ob.hyps, ob.goal, self.extra_axioms)
             except Exception as e:
                 raise CheckerError('translation of %s failed: %r' % (ob.id, e))
-            texts[ob.id] = text
-            st, mdl, secs, reason = smt.solve_smt2(text, 300)
+            text = None
+            st, mdl, secs, reason = smt.check_solver(solver, 300)
             ob.seconds += secs
             to = ob.timeout or self.timeout_ms
             if st == 'unsat':
@@ -139,9 +139,9 @@ class Session:
                 ob.status, ob.backend, ob.model = 'refuted', 'z3', mdl
             elif ob.hints:
                 # hints are valid facts (e.g. Gram inequalities): a model of the plain query is not a refutation
-                text2 = smt.to_smt2(ob.hyps + ob.hints, ob.goal, self.extra_axioms)
-                texts[ob.id] = text2
-                st2, mdl2, secs2, reason2 = smt.solve_smt2(text2, 500)
+                solver2 = smt.build_solver(ob.hyps + ob.hints, ob.goal, self.extra_axioms)
+                st2, mdl2, secs2, reason2 = smt.check_solver(solver2, 500)
+                text2 = solver2.to_smt2() if st2 == 'unknown' else None
                 ob.seconds += secs2
                 if st2 == 'unsat':
                     ob.status, ob.backend = 'proved', 'z3+facts'
@@ -151,6 +151,8 @@ class Session:
                     jobs.append((ob.id, text2, to, ['z3', 'nlsat', 'cvc5']))
                     ob.hints = []
             else:
+                text = solver.to_smt2()
+                texts[ob.id] = text
                 jobs.append((ob.id, text, to, ['z3', 'nlsat', 'cvc5']))
         if jobs:
             if verbose:
